@@ -176,7 +176,7 @@ pub fn replay(ctx: &Ctx, _stage: &str, case: &Value) -> Report {
 pub const INFO: PropInfo = PropInfo {
     id: "C19",
     level: "exploration",
-    rule: "cases = one generated collection x 3..4 presentations drawn from {plain, .gz, multi-member .gz with 1..4 member boundaries at arbitrary byte offsets (also inside header lines)} x line width {unwrapped, 1, 60, 80, 1..200, 100000} x {LF, CRLF} x {upper, lower, mixed case} x {final newline or not}, same mode and same file names up to '.gz'; for PanSN collections additionally the other mode (one PanSN file <-> one file per sample). All through the real `ragc create` (file-name -> sample-name rules included). Oracles (metamorphic): identical `ragc listset` output and identical extracted contigs across all presentations; byte-identical archives between presentations of the same mode (single-file cases have fewer than 50 contigs; a difference is only reported when two runs of the SAME presentation are byte-identical, otherwise it is labelled as C04's subject); one-file vs per-sample-files: sample list and extraction only. Non-trivial = two presentations differ in >= 2 dimensions and one is a multi-member gzip or a width-1 wrapping; distinct = distinct case.",
+    rule: "cases = one generated collection x 3..4 presentations drawn from {plain, .gz, multi-member .gz with 1..4 member boundaries at arbitrary byte offsets (also inside header lines), for a quarter of the files moved to the next record start and for another quarter to the next line start} x line width {unwrapped, 1, 60, 80, 1..200, 100000} x {LF, CRLF} x {upper, lower, mixed case} x {final newline or not}, same mode and same file names up to '.gz'; for PanSN collections additionally the other mode (one PanSN file <-> one file per sample). All through the real `ragc create` (file-name -> sample-name rules included). Oracles (metamorphic): identical `ragc listset` output and identical extracted contigs across all presentations; byte-identical archives between presentations of the same mode (single-file cases have fewer than 50 contigs; a difference is only reported when two runs of the SAME presentation are byte-identical, otherwise it is labelled as C04's subject); one-file vs per-sample-files: sample list and extraction only. Non-trivial = two presentations differ in >= 2 dimensions and one is a multi-member gzip or a width-1 wrapping; distinct = distinct case.",
     assumptions: &["same preconditions on names as C01; per-sample file names are `<sample>.<ext>[.gz]` with ext in fa/fasta (fna only uncompressed), which is what the documented naming rule maps back to the sample name"],
     needs_cli: true,
     needs_checked: false,
